@@ -1,8 +1,9 @@
 #!/usr/bin/env python3
 """Confirms every seeded change (suite passes / demo fails with it / demo passes without it, in a
 scratch worktree of /repo HEAD) and runs the property's quick check against it (applied to /repo and
-reverted straight afterwards). Writes seeded/<name>/meta.json and seeded/RESULTS.md."""
+reverted straight afterwards; with SANDBOX=1 - the default - on a scratch copy through tools/seedbox.sh so /repo is never touched, JOBS seeds at a time). Writes seeded/<name>/meta.json and seeded/RESULTS.md."""
 import json, os, re, subprocess, sys, time
+from concurrent.futures import ThreadPoolExecutor
 
 os.chdir("/verif")
 REBASED = {
@@ -19,17 +20,19 @@ REBASED = {
 # checks of other properties that are known to catch a seed as well (or instead)
 EXTRA = {"C20-r2-falsy-arg-zero": ["C12"], "C08-r2-nil-element-outer": ["C10"], "C16-nil-arg-shadow": ["C10"], "C19-r3-iterator-continue": ["C08"], "C16-r3-value-nil-fallthrough": ["C10"], "C12-r3-errors-as-swallow": ["C05"]}
 only = sys.argv[1:]
+RUN = "tools/seedbox.sh" if os.environ.get("SANDBOX", "1") == "1" else "tools/seedrun.sh"
+JOBS = int(os.environ.get("JOBS", "3")) if RUN.endswith("seedbox.sh") else 1
 rows = []
-for name in sorted(os.listdir("seeded")):
+
+
+def one(name):
     d = os.path.join("seeded", name)
-    if not os.path.isdir(d) or (only and name not in only):
-        continue
     prop = name.split("-")[0]
     t0 = time.time()
     v = subprocess.run(["tools/seedverify.sh", prop, "/verif/" + d], capture_output=True, text=True).stdout
     m = re.search(r"RESULT \S+ suite_with_patch_exit=(\d+) demo_with_patch_exit=(\d+) demo_without_exit=(\d+) dest=(\S+)", v)
     confirmed = bool(m) and m.group(1) == "0" and m.group(2) != "0" and m.group(3) == "0"
-    r = subprocess.run(["tools/seedrun.sh", name, prop], capture_output=True, text=True).stdout
+    r = subprocess.run([RUN, name, prop], capture_output=True, text=True).stdout
     rc = re.search(r"SEEDRUN \S+ \S+ exit=(\d+)", r)
     log = open(f"/verif/.work/seedrun-{name}-{prop}.log").read()
     sigs = sorted(set(re.findall(r'signature="([^"]*)"', log)))[:6]
@@ -46,12 +49,12 @@ for name in sorted(os.listdir("seeded")):
             "demo_fails_with_patch": bool(m) and m.group(2) != "0",
             "demo_passes_without_patch": bool(m) and m.group(3) == "0",
             "demo_destination": m.group(4) if m else None,
-            "commands": ["tools/seedverify.sh %s /verif/%s" % (prop, d), "tools/seedrun.sh %s %s" % (name, prop)],
+            "commands": ["tools/seedverify.sh %s /verif/%s" % (prop, d), "%s %s %s" % (RUN, name, prop)],
         },
         "check_result": {"check": prop, "tier": "quick", "exit": int(rc.group(1)) if rc else None, "caught": bool(rc) and rc.group(1) == "1", "signatures": sigs},
     }
     for other in EXTRA.get(name, []):
-        r2 = subprocess.run(["tools/seedrun.sh", name, other], capture_output=True, text=True).stdout
+        r2 = subprocess.run([RUN, name, other], capture_output=True, text=True).stdout
         rc2 = re.search(r"SEEDRUN \S+ \S+ exit=(\d+)", r2)
         meta.setdefault("also_run", []).append({"check": other, "exit": int(rc2.group(1)) if rc2 else None, "caught": bool(rc2) and rc2.group(1) == "1"})
         if meta["also_run"][-1]["caught"] and not meta["check_result"]["caught"]:
@@ -59,8 +62,13 @@ for name in sorted(os.listdir("seeded")):
     json.dump(meta, open(os.path.join(d, "meta.json"), "w"), indent=1)
     caught = meta["check_result"]["caught"] or bool(meta["check_result"].get("caught_by_other_check"))
     note = sigs[0] if sigs else ("caught by " + meta["check_result"].get("caught_by_other_check", "?"))
-    rows.append((name, prop, confirmed, caught, note, time.time() - t0))
     print(name, "confirmed" if confirmed else "NOT CONFIRMED", "caught" if meta["check_result"]["caught"] else "MISSED", "%.0fs" % (time.time() - t0), flush=True)
+    return (name, prop, confirmed, caught, note, time.time() - t0)
+
+
+names = [n for n in sorted(os.listdir("seeded")) if os.path.isdir(os.path.join("seeded", n)) and (not only or n in only)]
+with ThreadPoolExecutor(JOBS) as ex:
+    rows = list(ex.map(one, names))
 
 if not only:
     with open("seeded/RESULTS.md", "w") as f:
